@@ -46,14 +46,29 @@ def forward(nf: NF, x: Class, enc_name: str = "_to_serial", general_of=None) -> 
     desc = f"{show(ser)[:200]}  ==dec==>  {show(back)[:200]}"
     if back == self_t:
         return [], desc
+    if back[0] == "alts":
+        # a branching decoder: every returning path must give the object back
+        probs = []
+        for guard, alt in back[1]:
+            if alt == self_t:
+                continue
+            sub = _forward_compare(nf, x, alt, self_t, env, m, general_of)
+            for p_ in sub:
+                p_.msg = f"on the decoder path [{guard}]: " + p_.msg
+            probs += sub
+        return probs, desc
+    return _forward_compare(nf, x, back, self_t, env, m, general_of), desc
+
+
+def _forward_compare(nf, x, back, self_t, env, m, general_of) -> list:
     if back[0] != "ctor":
-        return [Problem("nonctor", "", f"decoding the encoded form does not rebuild an object: {show(back)[:160]}", node=m)], desc
+        return [Problem("nonctor", "", f"decoding the encoded form does not rebuild an object: {show(back)[:160]}", node=m)]
     y = nf.prog.cls(back[1])
     probs: list[Problem] = []
     if not (y is x or y in x.mro or (general_of and general_of(x) is y)):
         probs.append(Problem("class", "", f"{x.name} is decoded as {y.name}, which is not {x.name} or its general form",
                              expected=x.name, found=y.name, node=m))
-        return probs, desc
+        return probs
     args = ctor_args(back)
     for p in y.init_params():
         if p in DERIVED:
@@ -73,7 +88,7 @@ def forward(nf: NF, x: Class, enc_name: str = "_to_serial", general_of=None) -> 
         elif got != exp:
             kind = "crossed" if got[0] == "attr" and got[1] == self_t else "changed"
             probs.append(Problem(kind, p, f"field `{p}` of {x.name} comes back as {show(got)[:140]}", expected=show(exp), found=show(got)[:300]))
-    return probs, desc
+    return probs
 
 
 def reverse(nf: NF, s: Class, skip_fields=("parent",), dec_args: dict | None = None) -> tuple[list[Problem], str]:
@@ -81,11 +96,26 @@ def reverse(nf: NF, s: Class, skip_fields=("parent",), dec_args: dict | None = N
     k, m = s.find_method("deserialize")
     self_t = sym("self")
     try:
-        obj, env = nf.method_nf(s, "deserialize", args=dec_args)
+        alts = nf.method_alts(s, "deserialize", args=dec_args)
     except Opaque as e:
         return [Problem("opaque", "", f"decoder {s.name}.deserialize is outside the normalisable subset: {e}", node=m)], ""
+    if len(alts) > 1:
+        probs: list[Problem] = []
+        descs = []
+        for guard, obj, env in alts:
+            sub, d = _reverse_one(nf, s, obj, env, m, self_t, skip_fields)
+            for p_ in sub:
+                p_.msg = f"on the decoder path [{guard}]: " + p_.msg
+            probs += sub
+            descs.append(d)
+        return probs, " | ".join(descs)[:400]
+    _, obj, env = alts[0]
+    return _reverse_one(nf, s, obj, env, m, self_t, skip_fields)
+
+
+def _reverse_one(nf, s, obj, env, m, self_t, skip_fields):
     if obj[0] != "ctor":
-        return [Problem("opaque", "", f"decoder {s.name}.deserialize does not normalise to a constructor: {show(obj)[:120]}", node=m)], show(obj)
+        return [Problem("nonctor", "", f"decoder {s.name}.deserialize does not build an object on this path: {show(obj)[:120]}", node=m)], show(obj)
     ser = nf.mk_enc(obj, env)
     desc = f"{show(obj)[:200]}  ==enc==>  {show(ser)[:200]}"
     if ser == self_t:
